@@ -8,7 +8,7 @@ TRUSTED_BASE = [
     'translator /verif/translator (go/ast -> coq/gen/Tables.v, Consts.v, Upper.v), validated by the exhaustive class sweep',
     'extraction: ExtrOcamlBasic only (bool, option, unit, list, prod, sumbool to OCaml types); Z/positive/nat as Coq inductives; no Extract Constant',
     'OCaml 4.13.1 and the hand-written driver (ocaml/conv.ml, verdicts.ml, driver.ml) for the correspondence only',
-    'Go harness /verif/harness built with -tags verif against /repo; hooks internal/gem/verif_export.go, verif_export.go',
+    'Go harness /verif/harness built with -tags verif against /repo; hooks internal/gem/verif_export.go, verif_export.go, verif_export_table.go',
     'the model is hand-written (coq/Model, coq/Gem): tied to the code by the correspondence run, not by proof',
 ]
 DEFAULT_RULE = ('cases generated from one PRNG seeded by VERIF_SEED (structured tokens: ASCII words, every unicode.IsSpace code point, '
@@ -23,21 +23,21 @@ PROPS = {
             'rule': 'exhaustive: every string over the 15 classes up to length 4 (quick) / 5 (thorough), with a fixed and a random representative code point per class; random strings up to length 300 biased to RI runs, Extend runs, ZWJ chains, Hangul; arbitrary (also invalid) rune values; all code points for the classifier. non-trivial = more than one code point'},
     'C02': {'streams': [], 'engines': ['engine_sweep', 'engine_probes'],
             'rule': 'exhaustive: all 1,114,112 code points plus 9 negative / out-of-range rune values; the 14 predicate bits of the compiled Go code against the Unicode 13.0.0 reference, against the regenerated Coq tables and against the extracted classifier. non-trivial = outside ASCII'},
-    'C03': {'streams': [('subst', 1500, 60000)],
+    'C03': {'streams': [('subst', 1500, 60000)], 'engines': ['engine_manip'],
             'rule': 'pairs (text, image of the text under a cluster-for-cluster substitution between caseless self-contained clusters of 1-5 code points: digits, CJK, precomposed and conjoining Hangul, emoji ZWJ sequences, flags, Indic and Thai clusters, digit + combining marks, Prepend + digit), the same operation on both with string arguments substituted likewise; the outputs must correspond under the substitution. non-trivial = contains a non-ASCII byte'},
-    'C04': {'streams': [('chars', 1500, 60000), ('hist', 300, 10000)]},
+    'C04': {'streams': [('chars', 1500, 60000), ('hist', 300, 10000)], 'engines': ['engine_manip']},
     'C05': {'streams': [('hist', 1200, 60000)], 'also': ['C04', 'C09', 'C10']},
-    'C06': {'streams': [('wrap', 1200, 60000)]},
-    'C07': {'streams': [('ws', 1200, 50000), ('paras', 400, 20000), ('wrap', 300, 10000)]},
+    'C06': {'streams': [('wrap', 1200, 60000)], 'engines': ['engine_manip']},
+    'C07': {'streams': [('ws', 1200, 50000), ('paras', 400, 20000), ('wrap', 300, 10000)], 'engines': ['engine_manip']},
     'C08': {'streams': [('hist', 1000, 60000)]},
     'C09': {'streams': [('edit', 1500, 60000)]},
     'C10': {'streams': [('lines', 1500, 60000), ('hist', 200, 5000)]},
     'C11': {'streams': [('paras', 1500, 60000)]},
-    'C12': {'streams': [('justify', 1200, 60000)]},
-    'C13': {'streams': [('align', 1500, 60000)]},
-    'C14': {'streams': [('twocols', 600, 30000)]},
-    'C15': {'streams': [('deftable', 500, 25000)]},
-    'C16': {'streams': [('table', 800, 40000)]},
+    'C12': {'streams': [('justify', 1200, 60000)], 'engines': ['engine_manip']},
+    'C13': {'streams': [('align', 1500, 60000)], 'engines': ['engine_manip']},
+    'C14': {'streams': [('twocols', 600, 30000)], 'engines': ['engine_manip']},
+    'C15': {'streams': [('deftable', 500, 25000)], 'engines': ['engine_manip']},
+    'C16': {'streams': [('table', 800, 40000)], 'engines': ['engine_manip']},
     'C17': {'streams': [('opts', 1200, 60000)]},
     'C18': {'streams': [('total', 1200, 60000), ('hist', 150, 5000), ('chars', 150, 5000), ('edit', 150, 5000), ('lines', 150, 5000), ('paras', 200, 5000),
                         ('wrap', 150, 5000), ('ws', 200, 5000), ('justify', 150, 5000), ('align', 150, 5000), ('twocols', 150, 5000),
@@ -131,6 +131,40 @@ def engine_probes(ctx, prop, r):
             r.failures.append({'id': 'U+%04X' % cp if cp >= 0 else str(cp), 'stream': 'probes', 'in_guard': True, 'clause': '-',
                                'case': 'codepoint %d in the probe contexts of harness/extra.go (probeCtx)' % cp, 'impl': ' '.join(f[2:])})
     r.samples.append({'stream': 'probes', 'case': open(out).readlines()[1000].strip()})
+
+MANIP_KINDS = {'C04': 'RI', 'C06': 'WR', 'C07': 'CS,WR', 'C12': 'JL', 'C13': 'AL', 'C14': 'CC,WR', 'C15': 'CC,WR', 'C16': 'MT',
+               'C18': 'CS,WR,JL,AL,CC,MT,RI', 'C03': 'CS,WR,JL,AL'}
+
+def engine_manip(ctx, prop, r):
+    """the text-level functions the theorems are stated about (CollapseSpace, Wrap, JustifyLine, AlignLine*,
+    CombineColumnBlocks, MakeTable, RangeToIndexes) called directly through the verif-tagged exports on generated
+    arguments and recomputed with the extracted model"""
+    kinds = MANIP_KINDS.get(prop, 'CS,WR,JL,AL,CC,MT,RI')
+    n = 2000 if ctx.tier == 'quick' else 120000
+    shards = 1 if ctx.tier == 'quick' else 8
+    tot = bad = 0
+    for sh in range(shards):
+        out = os.path.join(ctx.work, 'manip_%d.txt' % sh)
+        rc, o = ctx.sh('%s manip -n %d -seed %d -kinds %s -out %s' % (ctx.build.harness, n // shards, ctx.seed * 100 + sh, kinds, out), timeout=3000)
+        if rc != 0:
+            r.engine_errors.append('manip failed: ' + o[-300:]); return
+        rc, o = ctx.sh('%s manip %s' % (ctx.driver, out), timeout=3000)
+        m = re.search(r'MANIP (\d+) (\d+)', o)
+        if not m:
+            r.engine_errors.append('driver manip failed: ' + o[-300:]); return
+        tot += int(m.group(1)); bad += int(m.group(2))
+        for l in o.splitlines():
+            if l.startswith('MANIPDIFF') and len(r.disagreements) < 10:
+                f = l.split()
+                line = [x for x in open(out) if x.startswith(f[1] + ' ')]
+                r.disagreements.append({'id': f[1], 'stream': 'manip', 'step': f[2], 'model': ' '.join(f[4:])[:600], 'impl': f[3][:600],
+                                        'case': (line[0].strip() if line else '')[:1500]})
+        if sh == 0:
+            r.samples.append({'stream': 'manip', 'case': open(out).readline().strip()[:300]})
+    r.evaluations += tot
+    r.agreements += tot - bad
+    r.distinct_nontrivial += tot
+    r.stream_counts['manip: direct calls of the text-level functions (%s)' % kinds] = tot
 
 def engine_split(ctx, prop, r):
     """every class string up to a length (one fixed and one random representative per class) plus long random
